@@ -608,6 +608,11 @@ def snapshot_consistent(script, details):
             continue
         if script == "d" and isinstance(obj, M) and obj.k >= 10:
             continue      # that script's temporaries
+        if obj is XBoom or isinstance(obj, (XBoom, types.TracebackType, int)):
+            # while the frame's finally / with-cleanup code runs for the scripted exception, the interpreter keeps the
+            # exception (3.9 / 3.10: type, value, traceback; 3.11+: the exception, the previous one and, for some
+            # handlers, the instruction offset) on the value stack
+            continue
         return "the snapshot holds an object the frame never had on its value stack: %s" % (repr(obj)[:80],)
     if script in GEN_CHAINS:
         chains, norm = GEN_CHAINS[script], tuple(ks)
